@@ -1406,8 +1406,14 @@ class Model(Object):
 
     def __exit__(self, type, value, traceback) -> None:
         """Pop the top context manager and trigger the undo functions."""
-        context = self._contexts.pop()
-        context.reset()
+        # Keep the context on the stack while it is replayed: the undo operations
+        # then find this (replaying, hence ignoring) context instead of recording
+        # new undo operations in an enclosing one.
+        context = self._contexts[-1]
+        try:
+            context.reset()
+        finally:
+            self._contexts.remove(context)
 
     def merge(
         self,
